@@ -4,7 +4,7 @@
 ** by look_from / scan_from into an equal value, consuming exactly what was written, from
 ** a heap String and from a File alike.
 **
-** Parameters: type=int|float|string|all   sinks=str,tmp,mem (subset)   grid=small|full
+** Parameters: type=int|float|string|all   sinks=str,tmp,mem (subset)   grid=small|full   sweep=0|1 (single-byte sweep, default 1)
 **             strlen=N (strings: every string of length <= N over the 13-byte alphabet)
 **             pairlen=N (string pairs from the length <= N set)   pairs=0|1
 **
@@ -69,11 +69,13 @@ static const struct spec* RD[3] = { IR, FR, SR };  static int NRD[3];
 
 static const char* SEP[] = { ", ", " " };
 
+#define STRW 320
+
 /* ---- value grids ------------------------------------------------------------------- */
 
 static int64_t* IV; static int NIV; static int* IPAIR; static int NIPAIR;
 static double*  FV; static int NFV; static int* FPAIR; static int NFPAIR;
-static char   (*SV)[48]; static int NSV; static int NSPAIR;   /* string pairs: indices [0, NSPAIR) */
+static char   (*SV)[STRW]; static int NSV; static int NSPAIR;   /* string pairs: indices [0, NSPAIR) */
 
 static void add_i(int64_t v) {
   for (int i = 0; i < NIV; i++) if (IV[i] == v) return;
@@ -148,12 +150,12 @@ static void build_floats(int full) {
   }
 }
 
-static const unsigned char SALPHA[] = { 'a', ' ', '"', '\\', '\'', '?', '\n', '\t', '\a', 0x01, 0x7F, 0x80, 0xFF };
+static const unsigned char SALPHA[] = { 'a', ' ', '"', '\\', '\'', '?', '%', '\n', '\t', '\a', 0x01, 0x7F, 0x80, 0xFF };
 
 static void build_strings(int maxlen, int pairlen) {
   size_t total = 0, p = 1;
   for (int l = 0; l <= maxlen; l++) { total += p; p *= NEL(SALPHA); }
-  SV = malloc((total + 4) * sizeof *SV); NSV = 0; NSPAIR = 0;
+  SV = malloc((total + 8 + 5 * 255) * sizeof *SV); NSV = 0; NSPAIR = 0;
   for (int l = 0; l <= maxlen; l++) {
     size_t cnt = 1; for (int i = 0; i < l; i++) cnt *= NEL(SALPHA);
     for (size_t x = 0; x < cnt; x++) {
@@ -164,8 +166,23 @@ static void build_strings(int maxlen, int pairlen) {
     if (l == pairlen) NSPAIR = NSV;
   }
   if (NSPAIR == 0) NSPAIR = NSV;
-  /* one long string (40 characters) mixing everything */
+  /* the full byte range: every non-NUL byte alone, doubled, between two letters, after a backslash, after a quote */
+  if (vf_param_i("sweep", 1)) {
+    for (int c = 1; c < 256; c++) {
+      snprintf(SV[NSV++], STRW, "%c", c);
+      snprintf(SV[NSV++], STRW, "%c%c", c, c);
+      snprintf(SV[NSV++], STRW, "a%ca", c);
+      snprintf(SV[NSV++], STRW, "\\%c", c);
+      snprintf(SV[NSV++], STRW, "\"%c", c);
+    }
+  }
+  /* one long string (40 characters) mixing everything, and lengths around the sizes of internal buffers */
   strcpy(SV[NSV++], "The quick \"brown\" fox\\ jumps\tover? 'it'\n");
+  static const int longs[] = { 127, 128, 129, 300 };
+  for (int k = 0; k < 4; k++) {
+    for (int i = 0; i < longs[k]; i++) SV[NSV][i] = (char)('b' + (i * 7 + i / 25) % 25);
+    SV[NSV][longs[k]] = 0; NSV++;
+  }
 }
 
 /* ---- features and labels ------------------------------------------------------------ */
@@ -184,6 +201,8 @@ static const char* feat_float_text(const char* t) {
 static const char* feat_str(const char* s) {
   int esc = 0, hi = 0, ctl = 0, sp = 0;
   if (!*s) return "empty";
+  if (strchr(s, '%')) return "percent";
+  if (strlen(s) >= 100) return "long";
   for (; *s; s++) {
     unsigned char c = (unsigned char)*s;
     if (strchr("\a\b\f\n\r\t\v\\'\"?", c)) esc = 1;
@@ -319,18 +338,22 @@ static int run_case(const struct value* a, const struct value* b, const struct s
   volatile int wpos = -1;
   var e;
 
+  /* feature of the value for labels of the writing stage (the Float feature needs the text, not yet known) */
+  const char* wfeat = a->type == T_INT ? feat_int(a->i) : a->type == T_STR ? feat_str(a->s) : "write";
+  if (b && a->type == T_STR && strcmp(wfeat, "plain") == 0) wfeat = feat_str(b->s);
+
   /* 1. what the writer produces for each value alone, in a fresh String at position 0 */
   assign(TXT, $S(""));
   e = VF_CATCH(wpos = do_write(w, TXT, 0, a->type, va));
   kase = NULL;
-  if (e) { kase = mkcase(a, b, w, r, sk, start, sepi); vf_violation(LBL(T, w->name, "write", "raises"), kase, "writing raised %s", vf_exc_name(e)); return 1; }
+  if (e) { kase = mkcase(a, b, w, r, sk, start, sepi); vf_violation(LBL(T, w->name, wfeat, "write-raises"), kase, "writing raised %s", vf_exc_name(e)); return 1; }
   snprintf(text_a, sizeof text_a, "%s", c_str(TXT));
-  if (wpos != (int)strlen(text_a)) { kase = mkcase(a, b, w, r, sk, start, sepi); vf_violation(LBL(T, w->name, "write", "returned-position"), kase, "writer returned %d after writing %zu characters at 0", (int)wpos, strlen(text_a)); return 1; }
+  if (wpos != (int)strlen(text_a)) { kase = mkcase(a, b, w, r, sk, start, sepi); vf_violation(LBL(T, w->name, wfeat, "write-returned-position"), kase, "writer returned %d after writing %zu characters at 0", (int)wpos, strlen(text_a)); return 1; }
   text_b[0] = 0;
   if (b) {
     assign(TXT, $S(""));
     e = VF_CATCH(wpos = do_write(w, TXT, 0, b->type, vb));
-    if (e) { kase = mkcase(a, b, w, r, sk, start, sepi); vf_violation(LBL(T, w->name, "write", "raises"), kase, "writing raised %s", vf_exc_name(e)); return 1; }
+    if (e) { kase = mkcase(a, b, w, r, sk, start, sepi); vf_violation(LBL(T, w->name, wfeat, "write-raises"), kase, "writing raised %s", vf_exc_name(e)); return 1; }
     snprintf(text_b, sizeof text_b, "%s", c_str(TXT));
   }
   snprintf(expect_text, sizeof expect_text, "%s%s%s%s", filler, text_a, sep, text_b);
@@ -356,7 +379,7 @@ static int run_case(const struct value* a, const struct value* b, const struct s
   }
   if (e) {
     if (sk == SK_MEM) { fclose(wf); free(membuf); }
-    kase = mkcase(a, b, w, r, sk, start, sepi); vf_violation(LBL(T, w->name, "write", "raises"), kase, "writing to %s raised %s", skname[sk], vf_exc_name(e)); return 1;
+    kase = mkcase(a, b, w, r, sk, start, sepi); vf_violation(LBL(T, w->name, wfeat, "write-raises"), kase, "writing to %s raised %s", skname[sk], vf_exc_name(e)); return 1;
   }
   /* fetch what the sink holds */
   size_t gotlen = 0;
@@ -397,15 +420,15 @@ static int run_case(const struct value* a, const struct value* b, const struct s
   else {
     d0 = DST[0]; d1 = DST[1];
     assign(d0, $S("@@")); assign(d1, $S("@@"));
-    if (r->cls == 1) { resize(d0, 100); resize(d1, 100); }       /* %s reads into the caller's buffer, as in C */
+    if (r->cls == 1) { resize(d0, 700); resize(d1, 700); }       /* %s reads into the caller's buffer, as in C */
   }
 
   /* expectations for a raw %s reader come from libc on the same text */
   int raw = (a->type == T_STR && r->cls == 1);
-  char tok0[128] = "", tok1[128] = ""; int n0 = 0, n1 = 0, rc0 = 0, rc1 = 0;
+  char tok0[768] = "", tok1[768] = ""; int n0 = 0, n1 = 0, rc0 = 0, rc1 = 0;
   if (raw) {
-    rc0 = sscanf(got_text + start, "%100s%n", tok0, &n0);
-    if (b && rc0 >= 1) rc1 = sscanf(got_text + start + n0 + ls, "%100s%n", tok1, &n1);
+    rc0 = sscanf(got_text + start, "%700s%n", tok0, &n0);
+    if (b && rc0 >= 1) rc1 = sscanf(got_text + start + n0 + ls, "%700s%n", tok1, &n1);
   }
 
   volatile int p1 = -1, p2 = -1;
